@@ -1,7 +1,7 @@
 """C17 driver: feeds strings to every decoder and records the outcome class (the judge is spec/Trace_Fuzz.tla)."""
 import sys
 
-ALPHABET = ["0", "5", "f", "g", "z", "-", "+", ".", "/", "٣"]
+ALPHABET = ["0", "1", "5", "f", "g", "z", "-", "+", ".", "/", "٣"]
 
 
 def text_of(sym):
